@@ -31,6 +31,9 @@ def run(chk):
     for i in pick[::4] if quick else pick:
         seed = rng.randint(1, 10 ** 6)
         lines.append('o_fft\t%d %d %d %d %d' % (i, seed, rng.randint(3, 12), rng.randint(0, 1), rng.choice([0, 0, 1, 2])))
+        # small cells: the density of one atom spans more than half a cell edge (periodic wrap-around of the box)
+        lines.append('o_fft\t%d %d %d %d %d %d' % (i, seed + 7, rng.randint(1, 3), rng.randint(0, 1), rng.choice([0, 0, 1]),
+                                                   rng.choice([50, 60, 75])))
     res = vlib.correspond(chk, h, None, lines, timeout=3000)
     for l in res['outputs']:
         p = l.split('\t')
